@@ -55,7 +55,7 @@ CHECKS.update({
         note=EYE_NOTE),
     "C16": dict(engine="addrsort", ref="§5 C16, §4 E7",
         technique="exhaustive small-scope enumeration plus property-based testing against an independent specification (stable partition); end-to-end differential leg over loopback listeners",
-        text="All IPv4/IPv6 family patterns up to length 8 (quick) / 12 (thorough) for the four local-binding combinations, exhaustively, plus random lists with duplicates: output is a permutation, first/second element and remainder order equal the specification, set_port applies to every address; through TcpTransport with a scripted resolver the accepted peer is the first live address of the specified order.",
+        text="All IPv4/IPv6 family patterns up to length 8 (quick) / 12 (thorough) for the four local-binding combinations, exhaustively, plus random lists with duplicates: output is a permutation, first/second element and remainder order equal the specification, set_port applies to every address; through TcpTransport with a scripted resolver and local bindings (none, loopback, wildcard) the accepted peer is the first live address of the specified order.",
         note="Trusted base: the hook wrappers call the crate-private routines unchanged; loopback networking for the end-to-end leg (refused connects are immediate compared with the >= 570 ms stagger)."),
     "C20": dict(engine="sni+tlsstack", ref="§5 C20, §4 E10, §10.3",
         technique="grammar-based property testing of the public ValidateSNI layer against an independent reference predicate (two-directional: never forwarded on mismatch, never rejected on match)",
@@ -84,7 +84,7 @@ CHECKS.update({
 CHECKS.update({
     "C13": dict(engine="reqgrammar+tlsstack", ref="§5 C13, §4 E6, §10.3",
         technique="grammar-based property testing of the public client layers and the real connection builder with the wire captured; oracle = statement-derived expectations on request target, Host header, version, stripped headers and protocol selection",
-        text="Requests from a grammar (schemes, hosts incl. IPv4/IPv6, ports, paths, queries, URI forms, methods incl. CONNECT, all versions, pre-set headers) crossed with connection outcomes (request version x ALPN) go through SetHostHeader/Http2Checks/Http1Checks over a stub connection, through ConnectionPoolService (pooled/unpooled) and ConnectorService with stub collaborators, and through the real HttpConnectionBuilder + RequestExecutor with the bytes captured: preface iff HTTP/2 requested or ALPN h2; HTTP/1 target, Host (caller's preserved) and HTTP/2 header stripping / CONNECT rejection as stated. The full-stack TLS leg (engine tlsstack) checks the version the real TLS server's handler observes against requested version x negotiated ALPN (h2, http/1.1, h3, none, conflict).",
+        text="Requests from a grammar (schemes, hosts incl. IPv4/IPv6, ports, paths, queries, URI forms, methods incl. CONNECT, all versions, pre-set headers) crossed with connection outcomes (request version x ALPN) go through SetHostHeader/Http2Checks/Http1Checks over a stub connection, through ConnectionPoolService (pooled/unpooled) and ConnectorService with stub collaborators, and through the real HttpConnectionBuilder + RequestExecutor with the bytes captured: preface iff HTTP/2 requested or ALPN h2; HTTP/1 target, Host (caller's preserved) and HTTP/2 header stripping / CONNECT rejection as stated. The full-stack TLS leg (engine tlsstack) checks the version the real TLS server's handler observes against requested version x negotiated ALPN (h2, http/1.1, h3, none, conflict). An end-to-end leg (netsim) follows redirects between origins and checks Host / :authority on every hop.",
         note="Trusted base: the http crate decides which requests are well-typed; hyper serialises the final http::Request (target compared via to_string and, in the wire leg, parsed from the captured bytes); for schemes without a default port either Host form is accepted."),
     "C17": dict(engine="reqgrammar+tlswire", ref="§5 C17, §4 E6/E5",
         technique="grammar-based robustness testing with a process-wide panic hook and catch_unwind: any panic located in the library (caller task or spawned task) is a violation; debug assertions on",
@@ -100,7 +100,7 @@ NET_NOTE = ("Trusted base: tokio current_thread scheduler with paused clock (sch
 CHECKS.update({
     "C01": dict(engine="netsim+poolsim", ref="§5 C01, §4 E2/E1",
         technique="end-to-end property-based testing in virtual time: generated concurrent request scripts with id-tagged payloads through the real client stack, pool, hyper and Server; two-directional oracle (handler checks every request, client checks every response); plus a pool-level leg requiring every uncancelled request of a fault-free history to succeed",
-        text="Up to 8/24 concurrent requests over 1-3 h1/h2/auto servers with streamed patterned bodies, generated header sets on requests and responses (repeated names, empty, 3 kB and opaque non-ASCII values, compared per name and in order), chunked responses, handler delays, cancellations at any instant, pool on/off and all pool settings, and HTTP/1.1 protocol upgrades (101 followed by a raw patterned exchange over the taken-over connection, checked at both ends incl. end-of-stream, never followed by another request on that connection): every handled request must carry exactly what its caller sent and every uncancelled request must complete with the response produced for its own id and origin. The open finding (KNOWN_FINDINGS.txt) is matched by signature and does not mask other violations.",
+        text="Up to 8/24 concurrent requests over 1-3 h1/h2/auto servers with streamed patterned bodies, generated header sets on requests and responses (repeated names, empty, 3 kB and opaque non-ASCII values, compared per name and in order), chunked responses, handler delays, cancellations at any instant, pool on/off and all pool settings, followed redirects (303 to another origin; every hop must name the origin it is sent to), and HTTP/1.1 protocol upgrades (101 followed by a raw patterned exchange over the taken-over connection, checked at both ends incl. end-of-stream, never followed by another request on that connection): every handled request must carry exactly what its caller sent and every uncancelled request must complete with the response produced for its own id and origin. The open finding (KNOWN_FINDINGS.txt) is matched by signature and does not mask other violations.",
         note=NET_NOTE),
     "C07": dict(engine="netsim", ref="§5 C07, §4 E2",
         technique="virtual-time schedule generation: the graceful-shutdown signal instant is swept relative to accept, protocol detection, request transfer, handler execution and response transfer; history invariants over the handler log, the executor-wrapped connection tasks and the client results",
